@@ -227,13 +227,17 @@ def check_offset(spec: dict) -> dict:
         raise Violation("offset_length", {"result": result})
     if result["strand"] != loc["strand"]:
         raise Violation("offset_strand", {"result": result})
-    # the same bases in the same 5'->3' order (what extraction of the shifted feature relies on)
-    if (not gen.is_span(loc) and not gen.is_span(result) and len(result["parts"]) == len(loc["parts"])
-            and (len(ring.bases(loc)) < length or not wrap)):
-        modulus = length if wrap else None
-        expected_order = [(b + offset) % modulus if modulus else b + offset for b in _transcript_order(loc)]
-        if _transcript_order(result) != expected_order:
-            raise Violation("offset_order", {"result": result})
+    # when every part can simply be translated without leaving [0, L], the result is exactly that translation,
+    # part by part in the same order (which is what extraction of a shifted feature relies on)
+    shifts = [offset] if not wrap else [offset % length, offset % length - length]
+    for shift in shifts:
+        if all(0 <= start + shift and end + shift <= length for start, end in loc["parts"]) and (
+                len(ring.bases(loc)) < length or not wrap):
+            expected_parts = [[start + shift, end + shift] for start, end in loc["parts"]]
+            touching = any(a[1] == b[0] or b[1] == a[0] for a, b in zip(expected_parts, expected_parts[1:]))
+            if not touching and result["parts"] != expected_parts:
+                raise Violation("offset_order", {"result": result, "expected_parts": expected_parts})
+            break
     return {"nontrivial": _nontrivial_locs([loc, result], length),
             "classes": ["wrap" if wrap else "line", f"kind_{loc.get('kind')}",
                         "result_span" if gen.is_span(result) else "result_plain"]}
